@@ -62,6 +62,10 @@ func (f *frame) callContract(st *State, ins *ssa.Call, callee *ssa.Function, con
 	for _, a := range con.Assigns {
 		f.havocLvalue(st, env, a, callee)
 	}
+	if ex.prog.reachesAtomicLoad(callee, map[*ssa.Function]bool{}) {
+		// the callee samples atomically accessed variables: how often is up to its contract
+		st.ghost["atomic_loads"] = VInt{ex.decls.fresh("gv_atomic_loads", SInt)}
+	}
 	// results
 	res := callee.Signature.Results()
 	var results []Val
@@ -514,6 +518,39 @@ func (f *frame) entryFrame(st *State, hk string, arr []T) {
 }
 
 // allocTypes: heap struct types that fn (or its in-repo callees) may allocate.
+// reachesAtomicLoad: fn or an in-repo function it statically calls reads a variable through sync/atomic.
+func (p *Program) reachesAtomicLoad(fn *ssa.Function, seen map[*ssa.Function]bool) bool {
+	if seen[fn] {
+		return false
+	}
+	seen[fn] = true
+	for _, b := range fn.Blocks {
+		for _, ins := range b.Instrs {
+			var cc *ssa.CallCommon
+			switch x := ins.(type) {
+			case *ssa.Call:
+				cc = &x.Call
+			case *ssa.Defer:
+				cc = &x.Call
+			case *ssa.Go:
+				cc = &x.Call
+			}
+			if cc == nil {
+				continue
+			}
+			if sc := cc.StaticCallee(); sc != nil {
+				if strings.HasPrefix(sc.String(), "sync/atomic.Load") {
+					return true
+				}
+				if p.inRepo(sc) && p.reachesAtomicLoad(sc, seen) {
+					return true
+				}
+			}
+		}
+	}
+	return false
+}
+
 func (p *Program) allocTypes(fn *ssa.Function, seen map[*ssa.Function]bool, out map[string]*types.Named) {
 	if seen[fn] {
 		return
